@@ -26,7 +26,7 @@ CONST = {"quick": {"MaxWeight": 4, "MaxMLayers": 3, "replay": 130, "tk_random": 
          "thorough": {"MaxWeight": 5, "MaxMLayers": 3, "replay": 1200, "tk_random": 400}}
 EMPTY_MC = {"ty": [], "layers": []}
 EMPTY_TK = {"nq": 0, "nb": 0, "cmds": [], "postsel": [], "sc": {"re": 1, "im": 0, "s": 0}, "post": EMPTY_MC}
-OPS1 = ["H", "X", "Y", "Z", "S", "T", "Rx", "Rz"]
+OPS1 = ["H", "X", "Y", "Z", "S", "T", "Sdg", "Tdg", "Rx", "Rz"]
 OPS2 = ["CX", "CZ", "CRz"]      # (tket SWAP is refused by from_tk: NotImplementedError)
 
 
@@ -192,7 +192,7 @@ class MockBackend:
 
 def observe_to(mc):
     rec = {"kind": "to_tk", "mc": mc, "tk": EMPTY_TK, "exc": "", "refused": 0, "mock": None, "counts": None, "counts_exc": "",
-           "evalb": None, "evalb_exc": ""}
+           "evalb": None, "evalb_exc": "", "batched": None, "batched_exc": ""}
     try:
         real = qadapt.mixed_circuit(mc)
         t = real.to_tk()
@@ -229,6 +229,20 @@ def observe_to(mc):
         rec["mock"] = dense_raw
     except Exception as e:
         rec["counts_exc"] = type(e).__name__
+    # the same circuit as the second of a batch whose first circuit carries another scalar (tket scalar 4)
+    try:
+        from discopy.quantum import Ket, Measure, scalar
+        both = (Ket(0) @ scalar(2) >> Measure()).get_counts(real, backend=MockBackend())
+        n = len(real.init_and_discard().cod)
+        dense = [0.0] * (2 ** n)
+        for bits, v in both[1].items():
+            idx = 0
+            for b in bits:
+                idx = 2 * idx + b
+            dense[idx] = complex(v)
+        rec["batched"] = dense
+    except Exception as e:
+        rec["batched_exc"] = type(e).__name__
     try:
         import numpy as np
         mb = MockBackend()
@@ -338,6 +352,38 @@ def bit_swap_after_postselection_family():
             layers += [{"g": _mg("Bra", bits=bras), "off": pos}, {"g": _mg("Measure", n=1, f1=1, f2=0), "off": 0},
                        {"g": _mg("Measure", n=1, f1=1, f2=0), "off": 1}, {"g": _mg("MSwap", tl=["b"], tr=["b"]), "off": 0}]
             out.append({"ty": [], "layers": layers})
+    return out
+
+
+def daggered_gate_family():
+    """the adjoint of a named gate between two Hadamards (the phase it applies is read out in the X basis), alone and
+    after the gate itself; S and T have tket adjoints Sdg and Tdg, the other named gates are their own adjoints"""
+    out = []
+    M = {"g": _mg("Measure", n=1, f1=1, f2=0), "off": 0}
+    for k in ("S", "T", "Y", "H", "X"):
+        for pre in ((), ("S",), ("T", "T")):
+            layers = [{"g": _mg("Ket", bits=[0]), "off": 0}, {"g": _mg("H"), "off": 0}] + [{"g": _mg(p), "off": 0} for p in pre]
+            layers += [{"g": _mg(k, dg=1), "off": 0}, {"g": _mg("H"), "off": 0}, M]
+            out.append({"ty": [], "layers": layers})
+    for k in ("S", "T"):
+        out.append({"ty": [], "layers": [{"g": _mg("Ket", bits=[0, 1]), "off": 0}, {"g": _mg("H"), "off": 0}, {"g": _mg("CX"), "off": 0},
+                                          {"g": _mg(k, dg=1), "off": 1}, {"g": _mg("CX"), "off": 0}, {"g": _mg(k), "off": 0},
+                                          {"g": _mg("H"), "off": 0}, M, dict(M, off=1)]})
+    return out
+
+
+def rotation_export_family():
+    """rotations whose phase lies outside the first turn, or is negative (the adjoint of a rotation), exported: for a
+    controlled rotation a whole turn is not a global phase"""
+    out = []
+    M = {"g": _mg("Measure", n=1, f1=1, f2=0), "off": 0}
+    for ph in (-3, -1, 8, 9, 12, 13):
+        out.append({"ty": [], "layers": [{"g": _mg("Ket", bits=[0, 0]), "off": 0}, {"g": _mg("H"), "off": 0}, {"g": _mg("H"), "off": 1},
+                                          {"g": _mg("CRz", ph=ph), "off": 0}, {"g": _mg("H"), "off": 0}, {"g": _mg("H"), "off": 1},
+                                          M, dict(M, off=1)]})
+        for k in ("Rz", "Rx"):
+            out.append({"ty": [], "layers": [{"g": _mg("Ket", bits=[0]), "off": 0}, {"g": _mg("H"), "off": 0},
+                                              {"g": _mg(k, ph=ph), "off": 0}, {"g": _mg("S"), "off": 0}, {"g": _mg("H"), "off": 0}, M]})
     return out
 
 
@@ -508,7 +554,7 @@ def run(tier, seed, t0):
         os.remove(model["dump"])
         n_all = len(circuits)
         sample = circuits if len(circuits) <= c["replay"] else rnd.sample(circuits, c["replay"])
-        sample = sample + dead_wire_family() + postselection_chain_family() + bit_after_copy_family() + overriding_measure_family() + bit_swap_after_postselection_family() + ket_after_hole_family()
+        sample = sample + dead_wire_family() + postselection_chain_family() + bit_after_copy_family() + overriding_measure_family() + bit_swap_after_postselection_family() + ket_after_hole_family() + daggered_gate_family() + rotation_export_family()
         with mp.get_context("fork").Pool(16) as pool:
             nested = pool.map(work_one, sample, chunksize=4)
         recs = [r for group in nested for r in group]
@@ -529,6 +575,10 @@ def run(tier, seed, t0):
                     raise core.Machinery("the mock backend's frequencies disagree with Tket!TkDist on %s" % json.dumps(r["tk"]))
                 elif not cmp(e["want"], r["counts"]):
                     clause = "counts-through-exact-backend-differ-from-local-evaluation"
+                elif r["batched_exc"]:
+                    clause = "get-counts-of-a-batch-through-backend-raised"
+                elif not cmp(e["want"], r["batched"]):
+                    clause = "counts-of-the-second-circuit-of-a-batch-differ-from-local-evaluation"
                 elif r["evalb_exc"]:
                     clause = "eval-through-backend-raised"
                 elif not cmp(e["want"], r["evalb"]):
